@@ -338,28 +338,21 @@ func (f *flusher) flushData(b *blob) error {
 	}
 	defer closers.Close(memF)
 	verifYield("flushData.beforeDiskCreate", key)
+	// Create the disk entry only while this flush still owns the key. abort takes f.mu,
+	// and the Delete that aborts us removes the disk entry afterwards: an entry created
+	// here can neither outlive the blob nor collide with a re-creation of the key.
+	f.mu.Lock()
+	if f.blobs[key] != b {
+		f.mu.Unlock()
+		return nil
+	}
 	diskF, err := f.disk.Create(key, b.dataSize)
+	f.mu.Unlock()
 	if err != nil {
 		return fmt.Errorf("disk store create: %w", err)
 	}
 	defer closers.Close(diskF)
 	verifYield("flushData.afterDiskCreate", key)
-	f.mu.Lock()
-	cur, ok := f.blobs[b.key]
-	if !ok || cur != b {
-		// abort was called before we created the file (and the key may have been
-		// re-created and enqueued again since), we need to cleanup.
-		err := f.disk.Delete(key)
-		if err != nil && !errors.Is(err, os.ErrNotExist) {
-			f.log.With(
-				"key", key,
-				"error", err).
-				Error("Could not clean disk entry after flushing failed, blob is now leaked in disk store")
-		}
-		f.mu.Unlock()
-		return nil
-	}
-	f.mu.Unlock()
 	verifYield("flushData.beforeCopy", key)
 	_, err = ioCopy(diskF, memF)
 	if errors.Is(err, memory.ErrEvicted) {
